@@ -210,6 +210,12 @@ def _words(rec, reps, values):
       if dis and show and cls in (S.PAC, S.MIDROW, S.ATTRIBUTE, S.SPECIAL, S.EXTENDED) and f"CC{ch}" not in dis:
         rec.fail("disassembly-channel", "disassembly renders the word", f"disassembly of {v:04x} is {dis!r}, expected channel CC{ch}", key_w,
                  replayer="replayers.c17:word", replay_args=key_w)
+      if dis and show and cls == S.CONTROL:
+        # a control code of field 1 is labelled with its channel; a field-2 control code belongs to neither channel and must not be given one
+        named = [c for c in ("CC1", "CC2") if c in dis]
+        if (ch is not None and named != [f"CC{ch}"]) or (ch is None and named):
+          rec.fail("disassembly-channel", "disassembly renders the word", f"disassembly of control code {v:04x} is {dis!r}, "
+                   f"expected {'channel CC%d' % ch if ch is not None else 'no channel (field-2 code)'}", key_w, replayer="replayers.c17:word", replay_args=key_w)
     # only channel-1 field-1 data reaches the decoder
     for state in (None, SccChannel.CHANNEL_1, SccChannel.CHANNEL_2):
       ctx = MockContext(state)
